@@ -9,6 +9,8 @@
    Scopes transcribed from crates/grafeo-core/src/graph/lpg/store.rs (default variants):
      N nodes   E edges   CAT label / edge-type catalog   LI label_index   NL node_labels
      PI property_indexes   PR property columns   FA / BA forward / backward adjacency
+   PW is the property writer mutex.  The scopes are those of the repaired tree: add_label / remove_label are one scope
+   (nodes, catalog, label index, node_labels - delete_node's order), property writers take PW first.
    Switch "IndexHeldAcrossCount" (the pinned tree before the repair): add_label / remove_label keep the label
    index guard while they lock nodes for the label count - the inverse of delete_node's order. *)
 EXTENDS Naturals, Sequences, FiniteSets, TLC
@@ -20,17 +22,18 @@ R(x) == <<x, "R">>
 Held == "IndexHeldAcrossCount" \in AsIs
 Scopes(m) ==
   CASE m = "create_node"  -> << <<W("CAT")>>, <<W("LI")>>, <<W("NL")>>, <<W("N")>> >>
-    [] m = "delete_node"  -> << <<W("N"), W("LI"), W("NL")>>, <<R("PI")>>, <<R("PI"), R("PR")>>, <<W("PR")>> >>
-    [] m = "set_property" -> << <<R("PI"), R("PR")>>, <<W("PR")>>, <<R("PR")>>, <<W("N")>> >>
+    [] m = "delete_node"  -> << <<W("N"), W("LI"), W("NL")>>, <<R("PI")>>, <<W("PW"), R("PI"), R("PR"), W("PR")>> >>
+    [] m = "set_property" -> << <<W("PW"), R("PI"), R("PR"), W("PR")>>, <<R("PR")>>, <<W("N")>> >>
     [] m = "add_label"    -> IF Held THEN << <<R("N")>>, <<W("CAT")>>, <<W("NL")>>, <<W("LI"), W("N"), R("NL")>> >>
-                             ELSE << <<R("N")>>, <<W("CAT")>>, <<W("NL")>>, <<W("LI")>>, <<W("N"), R("NL")>> >>
+                             ELSE << <<W("N"), W("CAT"), W("LI"), W("NL")>> >>
     [] m = "remove_label" -> IF Held THEN << <<R("N")>>, <<R("CAT")>>, <<W("NL")>>, <<W("LI"), W("N"), R("NL")>> >>
-                             ELSE << <<R("N")>>, <<R("CAT")>>, <<W("NL")>>, <<W("LI")>>, <<W("N"), R("NL")>> >>
+                             ELSE << <<W("N"), R("CAT"), W("LI"), W("NL")>> >>
     [] m = "create_edge"  -> << <<W("CAT")>>, <<W("E")>>, <<W("FA")>>, <<W("BA")>> >>
     [] m = "delete_edge"  -> << <<W("E")>>, <<W("FA")>>, <<W("BA")>>, <<W("PR")>> >>
     [] m = "get_node"     -> << <<R("N"), R("CAT"), R("NL"), R("PR")>> >>
     [] m = "nodes_by_label" -> << <<R("CAT"), R("LI")>> >>
-Mutators == {"create_node", "delete_node", "set_property", "add_label", "remove_label", "create_edge", "delete_edge", "get_node", "nodes_by_label"}
+    [] m = "compute_statistics" -> << <<R("N")>>, <<R("E")>>, <<R("CAT"), R("LI")>> >>
+Mutators == {"create_node", "delete_node", "set_property", "add_label", "remove_label", "create_edge", "delete_edge", "get_node", "nodes_by_label", "compute_statistics"}
 Init == calls \in [Threads -> Mutators] /\ sc = [t \in Threads |-> 1] /\ pos = [t \in Threads |-> 0] /\ held = [t \in Threads |-> {}]
 Done(t) == sc[t] > Len(Scopes(calls[t]))
 Cur(t) == Scopes(calls[t])[sc[t]]
@@ -46,7 +49,7 @@ Spec == Init /\ [][Next]_vars
 \* stated as an invariant so that the violating state is reported by name
 NoDeadlock == (\A t \in Threads : Done(t)) \/ (\E t \in Threads : ENABLED Acquire(t) \/ ENABLED Release(t))
 \* the documented lock order (store.rs "Lock Ordering"): within a scope, levels never decrease
-LevelOf(x) == CASE x = "N" -> 1 [] x = "E" -> 2 [] x = "CAT" -> 3 [] x = "LI" -> 5 [] x = "NL" -> 6 [] x = "PI" -> 7 [] x = "PR" -> 9 [] x = "FA" -> 10 [] x = "BA" -> 10
+LevelOf(x) == CASE x = "PW" -> 0 [] x = "N" -> 1 [] x = "E" -> 2 [] x = "CAT" -> 3 [] x = "LI" -> 5 [] x = "NL" -> 6 [] x = "PI" -> 7 [] x = "PR" -> 9 [] x = "FA" -> 10 [] x = "BA" -> 10
 \* every scope of every mutator respects the documented order
 Ordered == \A m \in Mutators : \A i \in DOMAIN Scopes(m) : \A j, k \in DOMAIN Scopes(m)[i] : j < k => LevelOf(Scopes(m)[i][j][1]) <= LevelOf(Scopes(m)[i][k][1])
 =============================================================================
